@@ -40,6 +40,10 @@ pub enum Step {
     MaxRead(usize),
     /// the peer stops / resumes draining its socket: client writes block
     StallWrites(bool),
+    /// EOF in the middle of a frame (FramedRead: "bytes remaining on stream"): logged as garbage
+    CloseMidFrame,
+    /// fail the write that crosses this absolute byte offset of the request stream
+    FailWriteAt(usize),
 }
 
 pub fn kind_text(k: &OpKind) -> String {
@@ -242,7 +246,9 @@ pub fn run_script(steps: &[Step]) -> Outcome {
                             net.send(&frame_bytes(id, op, good, tok));
                         }
                         Step::Raw { bytes, log } => {
-                            verif_trace(log.clone());
+                            if !log.is_empty() {
+                                verif_trace(log.clone());
+                            }
                             net.send(&bytes);
                         }
                         Step::Close => {
@@ -302,6 +308,14 @@ pub fn run_script(steps: &[Step]) -> Outcome {
                         }
                         Step::MaxRead(n) => net.set_max_read(n),
                         Step::StallWrites(b) => net.stall_writes(b),
+                        Step::CloseMidFrame => {
+                            if !link_down {
+                                verif_trace(String::from("srv garbage"));
+                                link_down = true;
+                                net.close();
+                            }
+                        }
+                        Step::FailWriteAt(n) => net.fail_write_at(Some(n)),
                     }
                 }
                 settle().await;
@@ -343,6 +357,7 @@ pub fn run_script(steps: &[Step]) -> Outcome {
 /// Translate the merged real trace into the model's event language (one `;`-separated line).
 pub fn to_model_events(trace: &[String]) -> String {
     let mut out: Vec<String> = vec![];
+    let mut pending_op: Option<String> = None;
     let mut i = 0;
     while i < trace.len() {
         let t = &trace[i];
@@ -355,11 +370,23 @@ pub fn to_model_events(trace: &[String]) -> String {
             ("cli", "finished") | ("cli", "streamdropped") => {}
             ("drv", "scrub") => out.push(format!("drvscrub {}", w[2])),
             ("drv", "op") => {
-                let fail = trace.get(i + 1).map(|n| n == "drv end senderr").unwrap_or(false);
-                let skipped = trace.get(i + 1).map(|n| n == "drv opskipped").unwrap_or(false);
-                out.push(format!("drvop {} {} {}", w[2], w[3], if fail { "fail" } else if skipped { "skipped" } else { "ok" }));
-                if fail || skipped {
-                    i += 1;
+                // the arm's effects take place when the write has completed (`drv sent`), failed
+                // (`drv end senderr`) or the request was discarded (`drv opskipped`)
+                pending_op = Some(format!("drvop {} {}", w[2], w[3]));
+            }
+            ("drv", "sent") => {
+                if let Some(p) = pending_op.take() {
+                    out.push(format!("{} ok", p));
+                }
+            }
+            ("drv", "opskipped") => {
+                if let Some(p) = pending_op.take() {
+                    out.push(format!("{} skipped", p));
+                }
+            }
+            ("drv", "end") if w[2] == "senderr" => {
+                if let Some(p) = pending_op.take() {
+                    out.push(format!("{} fail", p));
                 }
             }
             ("drv", "resp") => {
